@@ -140,9 +140,13 @@ OutDesc(id, cls, alg_, app) ==
 OutEv(id, cls, alg_, app) ==
     [k |-> "out", id |-> id, same |-> TRUE, h |-> id, d |-> OutDesc(id, cls, alg_, app)]
 
-\* advance the monitor and record rejected properties
-Observe(o) == /\ mon' = Step(mon, o)
-              /\ bad' = bad \cup Failed(mon, o)
+\* advance the monitor, record rejected properties, and log the abstract step together with what
+\* the model predicts the controller observes (result, event kinds) for spec -> code replays
+EvKind(e) == IF e.k = "failed" THEN <<e.k, e.why>> ELSE IF e.k = "recvd" THEN <<e.k, e.cls>> ELSE <<e.k, "">>
+Observe(st, o) == /\ mon' = Step(mon, o)
+                  /\ bad' = bad \cup Failed(mon, o)
+                  /\ hist' = Append(hist, [st |-> st, res |-> o.res,
+                                            evk |-> [i \in DOMAIN o.ev |-> EvKind(o.ev[i])]])
 
 Init ==
     /\ now = 0 /\ tx = <<>> /\ heap = {} /\ est = EstInit(Cfg) /\ lastReq = -1
@@ -159,11 +163,10 @@ SendRequest(dt, app) ==
     /\ nsent < MaxSends
     /\ LET t == now + dt IN
        /\ now' = t
-       /\ hist' = Append(hist, [a |-> "send", dt |-> dt, app |-> app])
        /\ IF Cardinality(DOMAIN tx) >= MaxTx
           THEN \* capacity check: nothing else happens
                /\ UNCHANGED <<tx, heap, est, lastReq, viol, alg, nsent, nind, fins>>
-               /\ Observe([op |-> "send", t |-> t, res |-> "max", id |-> -1, ev |-> <<>>,
+               /\ Observe([a |-> "send", dt |-> dt, app |-> app], [op |-> "send", t |-> t, res |-> "max", id |-> -1, ev |-> <<>>,
                            arg |-> [method |-> 1, app_types |-> app], snap |-> Snap])
           ELSE LET id == nsent + 1
                    \* set_timeout: staleness reset, last_request, RtoManager::new + first interval
@@ -179,7 +182,7 @@ SendRequest(dt, app) ==
                        /\ est' = est1
                        /\ lastReq' = IF Reliable THEN lastReq ELSE t
                        /\ UNCHANGED <<tx, heap, viol, alg, nsent, nind, fins>>
-                       /\ Observe([op |-> "send", t |-> t, res |-> "internal", id |-> -1,
+                       /\ Observe([a |-> "send", dt |-> dt, app |-> app], [op |-> "send", t |-> t, res |-> "internal", id |-> -1,
                                    ev |-> <<>>, arg |-> [method |-> 1, app_types |-> app],
                                    snap |-> SnapOf(tx, heap, est1,
                                                    IF Reliable THEN lastReq ELSE t, viol, alg)])
@@ -192,7 +195,7 @@ SendRequest(dt, app) ==
                        IN /\ tx' = tx1 /\ heap' = heap1 /\ est' = est1 /\ lastReq' = lr1
                           /\ nsent' = id
                           /\ UNCHANGED <<viol, alg, nind, fins>>
-                          /\ Observe([op |-> "send", t |-> t, res |-> "ok", id |-> id,
+                          /\ Observe([a |-> "send", dt |-> dt, app |-> app], [op |-> "send", t |-> t, res |-> "ok", id |-> id,
                                       arg |-> [method |-> 1, app_types |-> app],
                                       ev |-> <<OutEv(id, "request", alg, app)>> \o NotifEv(heap1, t),
                                       snap |-> SnapOf(tx1, heap1, est1, lr1, viol, alg)])
@@ -204,9 +207,8 @@ SendIndication(dt, app) ==
     /\ nind < MaxInd
     /\ LET t == now + dt  id == 50 + nind IN
        /\ now' = t /\ nind' = nind + 1
-       /\ hist' = Append(hist, [a |-> "indic", dt |-> dt])
        /\ UNCHANGED <<tx, heap, est, lastReq, viol, alg, nsent, fins>>
-       /\ Observe([op |-> "indic", t |-> t, res |-> "ok", id |-> id,
+       /\ Observe([a |-> "indic", dt |-> dt, app |-> app], [op |-> "indic", t |-> t, res |-> "ok", id |-> id,
                    arg |-> [method |-> 1, app_types |-> app],
                    ev |-> <<OutEv(id, "indication", alg, app)>>, snap |-> Snap])
 
@@ -240,11 +242,12 @@ StProcess(d) ==
             ELSE IF Reliable THEN [r |-> "violated", viol |-> viol, alg |-> alg]
             ELSE [r |-> "discard", viol |-> viol \cup {d.id}, alg |-> alg]
 
-Reject(t, d, res) ==
+Reject(st, t, d, res) ==
     /\ UNCHANGED <<tx, heap, est, lastReq, viol, alg, nsent, nind, fins>>
-    /\ Observe([op |-> "recv", t |-> t, res |-> res, id |-> d.id, arg |-> [d |-> d],
+    /\ Observe(st, [op |-> "recv", t |-> t, res |-> res, id |-> d.id, arg |-> [d |-> d],
                 ev |-> <<>>, snap |-> Snap])
 
+RecvStep(dt, msg, id) == [a |-> "recv", dt |-> dt, msg |-> msg, id |-> id]
 Recv(dt, msg) ==
     LET t == now + dt IN
     /\ now' = t
@@ -254,19 +257,18 @@ Recv(dt, msg) ==
        /\ (msg.target = "fin") => id \in fins \ DOMAIN tx
        /\ (msg.target = "unknown") => id = 99
        /\ LET d == [msg.d EXCEPT !.id = id] IN
-          /\ hist' = Append(hist, [a |-> "recv", dt |-> dt, msg |-> msg, id |-> id])
-          /\ IF ~d.ok THEN Reject(t, d, "internal")                         \* (1) decode
-             ELSE IF d.cls = "request" THEN Reject(t, d, "discarded")       \* (2) class filter
+          /\ IF ~d.ok THEN Reject(RecvStep(dt, msg, id), t, d, "internal")                         \* (1) decode
+             ELSE IF d.cls = "request" THEN Reject(RecvStep(dt, msg, id), t, d, "discarded")       \* (2) class filter
              ELSE IF d.cls # "indication" /\ id \notin DOMAIN tx
-                  THEN Reject(t, d, "discarded")                            \* (2) id filter
-             ELSE IF UseFp /\ d.fp = "absent" THEN Reject(t, d, "checkfailed")   \* (3)
-             ELSE IF UseFp /\ d.fp # "valid" THEN Reject(t, d, "discarded")
+                  THEN Reject(RecvStep(dt, msg, id), t, d, "discarded")                            \* (2) id filter
+             ELSE IF UseFp /\ d.fp = "absent" THEN Reject(RecvStep(dt, msg, id), t, d, "checkfailed")   \* (3)
+             ELSE IF UseFp /\ d.fp # "valid" THEN Reject(RecvStep(dt, msg, id), t, d, "discarded")
              ELSE LET st == IF Mech = "st" THEN StProcess(d)                \* (4) mechanism
                             ELSE [r |-> "ok", viol |-> viol, alg |-> alg]
                   IN IF st.r = "discard"
                      THEN /\ viol' = st.viol
                           /\ UNCHANGED <<tx, heap, est, lastReq, alg, nsent, nind, fins>>
-                          /\ Observe([op |-> "recv", t |-> t, res |-> "discarded", id |-> id,
+                          /\ Observe(RecvStep(dt, msg, id), [op |-> "recv", t |-> t, res |-> "discarded", id |-> id,
                                       arg |-> [d |-> d], ev |-> <<>>,
                                       snap |-> SnapOf(tx, heap, est, lastReq, st.viol, alg)])
                      ELSE LET f == IF d.cls # "indication" THEN Finish(id, t, tx, heap, est)
@@ -278,7 +280,7 @@ Recv(dt, msg) ==
                              /\ viol' = st.viol /\ alg' = st.alg
                              /\ fins' = IF d.cls # "indication" THEN fins \cup {id} ELSE fins
                              /\ UNCHANGED <<lastReq, nsent, nind>>
-                             /\ Observe([op |-> "recv", t |-> t, res |-> "ok", id |-> id,
+                             /\ Observe(RecvStep(dt, msg, id), [op |-> "recv", t |-> t, res |-> "ok", id |-> id,
                                          arg |-> [d |-> d], ev |-> ev,
                                          snap |-> SnapOf(f.tx, f.heap, f.est, lastReq,
                                                          st.viol, st.alg)])
@@ -318,10 +320,9 @@ OnTimeout(dt) ==
                fins |-> fins, ev |-> <<>>]
         s == ProcessExpired(expired, t, s0)
     IN /\ now' = t
-       /\ hist' = Append(hist, [a |-> "timeout", dt |-> dt])
        /\ tx' = s.tx /\ heap' = s.heap /\ viol' = s.viol /\ fins' = s.fins
        /\ UNCHANGED <<est, lastReq, alg, nsent, nind>>
-       /\ Observe([op |-> "timeout", t |-> t, res |-> "ok", id |-> -1,
+       /\ Observe([a |-> "timeout", dt |-> dt], [op |-> "timeout", t |-> t, res |-> "ok", id |-> -1,
                    ev |-> s.ev \o NotifEv(s.heap, t),
                    snap |-> SnapOf(s.tx, s.heap, est, lastReq, s.viol, alg)])
 
